@@ -6,6 +6,13 @@ package main
 import (
 	"bytes"
 	"fmt"
+	"sync"
+
+	"google.golang.org/protobuf/proto"
+
+	"github.com/tink-crypto/tink-go/v2/core/registry"
+	tinkpb "github.com/tink-crypto/tink-go/v2/proto/tink_go_proto"
+	"github.com/tink-crypto/tink-go/v2/testkeyset"
 
 	"github.com/tink-crypto/tink-go/v2/insecuresecretdataaccess"
 	"github.com/tink-crypto/tink-go/v2/mac"
@@ -387,6 +394,73 @@ func invalidSection(x *h.X) {
 	x.Outcome("refused")
 }
 
+// ---- legacy (non-full) MAC primitive behind mac_factory's fullMACAdapter ---------------------------------------
+// A custom key manager whose Primitive() is a raw (prefix-less) MAC computed by the REFERENCE HMAC: the factory
+// must add the output prefix and, for the LEGACY prefix type, append 0x00 to the message.
+
+const legacyURL = "type.googleapis.com/verif.c04.RawReferenceHmacKey"
+
+type refMAC struct{ key []byte }
+
+func (m refMAC) ComputeMAC(data []byte) ([]byte, error) {
+	return ref.HMAC("SHA256", m.key, data)[:16], nil
+}
+func (m refMAC) VerifyMAC(tag, data []byte) error {
+	if !bytes.Equal(tag, ref.HMAC("SHA256", m.key, data)[:16]) {
+		return fmt.Errorf("invalid mac")
+	}
+	return nil
+}
+
+type legacyKM struct{}
+
+func (legacyKM) Primitive(b []byte) (any, error)            { return refMAC{bytes.Clone(b)}, nil }
+func (legacyKM) NewKey([]byte) (proto.Message, error)       { return nil, fmt.Errorf("unsupported") }
+func (legacyKM) DoesSupport(u string) bool                  { return u == legacyURL }
+func (legacyKM) TypeURL() string                            { return legacyURL }
+func (legacyKM) NewKeyData([]byte) (*tinkpb.KeyData, error) { return nil, fmt.Errorf("unsupported") }
+
+var legacyOnce sync.Once
+
+func legacySection(x *h.X) {
+	legacyOnce.Do(func() {
+		if err := registry.RegisterKeyManager(legacyKM{}); err != nil {
+			panic(err)
+		}
+	})
+	pts := []tinkpb.OutputPrefixType{tinkpb.OutputPrefixType_TINK, tinkpb.OutputPrefixType_CRUNCHY, tinkpb.OutputPrefixType_LEGACY, tinkpb.OutputPrefixType_RAW}
+	pi := x.Choose("prefix-type", 4)
+	pt := pts[pi]
+	v := variants[pi]
+	x.Label(v.String())
+	id := h.Pick(x, "id", tk.IDs)
+	kb := ref.KeyBytes("c04-legacy", 32)
+	ks := &tinkpb.Keyset{PrimaryKeyId: id, Key: []*tinkpb.Keyset_Key{{KeyData: &tinkpb.KeyData{TypeUrl: legacyURL, Value: kb, KeyMaterialType: tinkpb.KeyData_SYMMETRIC},
+		Status: tinkpb.KeyStatusType_ENABLED, KeyId: id, OutputPrefixType: pt}}}
+	hd, err := testkeyset.NewHandle(ks)
+	cfg := fmt.Sprintf("legacy raw MAC primitive behind the factory adapter, %v id=%#x", v, id)
+	if err != nil {
+		x.Fail("construct", "%s: %v", cfg, err)
+		return
+	}
+	m, err := mac.New(hd)
+	if err != nil {
+		x.Fail("construct", "%s: %v", cfg, err)
+		return
+	}
+	pre := ref.Prefix(v, id)
+	want := func(msg []byte) []byte {
+		d := msg
+		if v == ref.Legacy {
+			d = append(bytes.Clone(msg), 0)
+		}
+		return append(bytes.Clone(pre), ref.HMAC("SHA256", kb, d)[:16]...)
+	}
+	x.NonTrivial()
+	x.Outcome("legacy-adapter/" + v.String())
+	exercise(x, m, want, 130, len(pre), otherPrefixes(v, id), cfg)
+}
+
 func main() {
 	h.Main("C04", "exploration",
 		"product of (hash x key size x tag size x variant x id x construction path) x every message length 0..130/260 (HMAC) / 0..80 (CMAC, keys covering all msb(L),msb(K1) branches) x patterns; tag compared byte-for-byte with an RFC 2104 / RFC 4493 reference; mutation catalogue (every bit flip, every truncation, extensions, foreign prefixes, message edits) must be rejected. A case is non-trivial when a MAC object was built and exercised; distinct = distinct choice vectors.",
@@ -394,5 +468,6 @@ func main() {
 			{Name: "hmac", Body: hmacSection, Bound: -1},
 			{Name: "aescmac", Body: cmacSection, Bound: -1},
 			{Name: "invalid-params", Body: invalidSection, Bound: -1},
+			{Name: "legacy-adapter", Body: legacySection, Bound: -1},
 		})
 }
